@@ -68,7 +68,18 @@ impl StreamCase {
         };
         let durs = self.durs.clone();
         let (gvw, thr) = (self.gvw, self.thr);
-        catch(std::panic::AssertUnwindSafe(move || MlpgAdjust::new(gvw, thr, ms).create(&durs)))
+        // `create` takes `&self`: it must be a function of its argument.  On every other case the same `MlpgAdjust`
+        // is first asked for a different duration vector (same state count, other frame counts), and the call under
+        // test comes second (seeded change C05f: a mask memoised by the first call).
+        let decoy: Vec<usize> = durs.iter().enumerate().map(|(i, d)| if i % 2 == 0 { d + 1 + i % 3 } else { 1.max(d / 2) }).collect();
+        let with_decoy = durs.iter().sum::<usize>() % 2 == 1;
+        catch(std::panic::AssertUnwindSafe(move || {
+            let adj = MlpgAdjust::new(gvw, thr, ms);
+            if with_decoy {
+                let _ = std::panic::catch_unwind(std::panic::AssertUnwindSafe(|| adj.create(&decoy)));
+            }
+            adj.create(&durs)
+        }))
     }
 }
 
